@@ -225,8 +225,19 @@ RECURSIVE Digits(_)
 Digits(n) == IF n <= 0 THEN 0 ELSE 1 + Digits(n \div 10)
 
 (* --- mu/nu records: disc in nano-degrees (capped), polar = some point of the record is   *)
-(* within 0.1 deg of a pole of the system it is expressed in by the code under test        *)
+(* within 0.1 deg of a pole of the system it is expressed in by the code under test.       *)
+(* Round-trip records ("rt") also say how the coordinate OBJECT handed to the transform    *)
+(* was used: array = it holds arrays (not scalars); use = number of transforms the very    *)
+(* same object had already been handed to.  The law is the same for every use: a transform *)
+(* is a function of the coordinates, so the result is compared with the coordinates the    *)
+(* object was BUILT from (for array objects disc is the largest element discrepancy).      *)
 MuNuHolds(r) == ~r.nan /\ r.disc <= PosTolNdeg(r.polar)
+(* --- CallerObjectUnchanged: record "unch" = one call of fn (radec_to_munu, munu_to_radec, *)
+(* gcirc, angles_to_x, x_to_angles); same = the coordinate / argument arrays of the object  *)
+(* handed in are bit-identical after the call; array, use as above                           *)
+CallerFns == {"radec_to_munu", "munu_to_radec", "gcirc", "angles_to_x", "x_to_angles"}
+TransformFns == {"radec_to_munu", "munu_to_radec"}
+CallerObjectUnchanged(r) == r.fn \in CallerFns /\ r.same
 (* stripe record: values returned by stripe_to_eta / stripe_to_incl / frame.incl *)
 StripeHolds(r) == /\ r.exact /\ r.stripe \in Stripes
                   /\ r.eta10 = Eta10(r.stripe) /\ r.incl10 = Incl10(r.stripe) /\ r.frameincl10 = Incl10(r.stripe)
